@@ -133,6 +133,18 @@ func (t *KernMethod) TransferGovernTokens(ctx contract.KContext) (*contract.Resp
 		receiverBalanceOld := &utils.GovernTokenBalance{}
 		json.Unmarshal(receiverBalanceBuf, receiverBalanceOld)
 		receiverBalance.TotalBalance.Add(receiverBalance.TotalBalance, receiverBalanceOld.TotalBalance)
+		// an incoming transfer does not touch the receiver's locks
+		for lockType, locked := range receiverBalanceOld.LockedBalance {
+			if locked != nil {
+				receiverBalance.LockedBalance[lockType] = locked
+			}
+		}
+	}
+	if string(receiverBuf) == sender {
+		// the receiver record is written last: for a transfer to oneself it must
+		// derive from the debited record, not from the balance read before the debit
+		receiverBalance = senderBalance
+		receiverBalance.TotalBalance.Add(receiverBalance.TotalBalance, amount)
 	}
 
 	// 更新sender余额
